@@ -71,7 +71,7 @@ func (d *Device) handleKEYEvent(ie *input.InputEvent) {
 		// workaround for the case where keyboard mapping has ben changed while some key related to midi note
 		// is still active and new mapping doesn't point to any note, therefore noteOk was evaluated to false
 		if ie.Event.Value == EV_KEY_RELEASE {
-			_, ok := d.noteTracker[ie.Event.Code]
+			_, ok := d.noteTracker[noteKey{ie.Source.Name, ie.Event.Code}]
 			if ok {
 				d.NoteOff(ie)
 				break
@@ -352,10 +352,11 @@ func (d *Device) ProcessEvents(inputEvents <-chan *input.InputEvent) {
 	}
 
 	d.eventProcessMutex.Lock() // the LED refresh goroutine may still be inside an iteration that reads the trackers
-	for evcode := range d.noteTracker {
+	for key := range d.noteTracker {
+		evcode := key.code
 		d.NoteOff(&input.InputEvent{
 			Source: input.Handler{
-				Name:       "",
+				Name:       key.subhandler,
 				DeviceInfo: input.DeviceInfo{Name: "shutdown cleanup"},
 			},
 			Event: evdev.InputEvent{
